@@ -25,6 +25,16 @@ def lean_rat(x):
 def generate(chk):
     """Generated/C05.lean: every constant and table of the MusicXML parser/reader the model uses,
     read from the working tree (values by import, the `music_proto_keys` literal via the AST)."""
+    try:
+        _generate(chk)
+        chk.translit['C05 tables'] = 'regenerated from source'
+    except Exception as e:  # pylint: disable=broad-except
+        # the code no longer has the shape the extractor reads: the tie is broken, not the machinery
+        chk.translit['C05 tables'] = 'BROKEN: %s: %s' % (type(e).__name__, e)
+        chk.broken.append('translator:C05 (%s: %s)' % (type(e).__name__, e))
+
+
+def _generate(chk):
     from note_seq import musicxml_parser as mp, musicxml_reader as mr, constants
     keys = None
     for node in ast.walk(ast.parse(inspect.getsource(mr.musicxml_to_sequence_proto))):
@@ -1419,11 +1429,10 @@ def replay(chk, obj):
             print('outside the judged class (%s): nothing to check' % u)
             return 0
         open_ids = {e['id'] for e in chk.known if e.get('status') == 'open'}
-        real = [(w, f) for w, f in bad if f not in open_ids]
         for w, f in bad[:8]:
-            print(('KNOWN-FINDING %s: ' % f if f in open_ids else 'PROPERTY FAILS: ') + w)
+            print('PROPERTY FAILS' + (' (open known finding %s): ' % f if f in open_ids else ': ') + w)
         if not bad:
             print('property holds on this input')
-        return 1 if real else 0
+        return 1 if bad else 0
     finally:
         im.close()
